@@ -200,6 +200,9 @@ Fixpoint canon_err (e : err) : string :=
   | EDeserialize c e => ("EDeserialize " ++ hx c ++ " " ++ canon_err e)%string
   | EYamlShape w => sp "EYamlShape" (hx w)
   | EMetaParts => "EMetaParts"
+  | EDuplicate k n p1 p2 => ("EDuplicate " ++ hx k ++ " " ++ hx n ++ " " ++ hx p1 ++ " " ++ hx p2)%string
+  | ENodeFailed n e => ("ENodeFailed " ++ hx n ++ " " ++ canon_err e)%string
+  | EConfig w => sp "EConfig" (hx w)
   | EOther m => sp "EOther" (hx m)
   end.
 
